@@ -3,6 +3,7 @@ package main
 import (
 	"fmt"
 	"go/token"
+	"regexp"
 	"strings"
 
 	"golang.org/x/tools/go/ssa"
@@ -140,8 +141,8 @@ func ruleC10R1(r *Run) {
 			}
 			var rec *ssa.Defer
 			for _, d := range b.defers {
-				if mc, ok := d.Common().Value.(*ssa.MakeClosure); ok {
-					if len(p.callsTo(mc.Fn.(*ssa.Function), "builtin:recover")) > 0 {
+				if f := deferredFn(p, d); f != nil && f != b.fn {
+					if len(p.callsTo(f, "builtin:recover")) > 0 {
 						rec = d
 					}
 				}
@@ -270,10 +271,16 @@ func ruleC10R2(r *Run) {
 	}
 	// the non-nil test dominates the callback; from its true edge the callback is unreachable without passing cancel and both nil stores
 	var iff *ssa.If
+	edge := 0 // the successor of iff taken when t.cancelCtx != nil
 	for _, g := range guardsOf(v.cancel.Instr.Block()) {
 		rl := p.relOf(g)
 		if rl.X == "$t.cancelCtx" && rl.Op == "!=" && rl.Y == "nil" {
 			iff = g.If
+			if g.Pol {
+				edge = 0
+			} else {
+				edge = 1
+			}
 		}
 	}
 	if iff == nil {
@@ -292,7 +299,7 @@ func ruleC10R2(r *Run) {
 			return ok && fieldAddrName(fa) == field && p.expr(fa.X) == "$t" && isNilConst(p.resolve(st.Val))
 		}
 	}
-	first := iff.Block().Succs[0].Instrs[0]
+	first := iff.Block().Succs[edge].Instrs[0]
 	for _, f := range []string{"cancelCtx", "ctx"} {
 		byp := false
 		if !isStoreNil(f)(first) {
@@ -350,7 +357,7 @@ func ruleC10R3(r *Run) {
 		if c, ok := er.(*ssa.Call); ok {
 			// pop helper: a package function called with the receiver, returning nil or the popped element
 			sc := c.Common().StaticCallee()
-			if sc != nil && p.inRapid(sc) && sc.Blocks != nil && !knownFuncs[p.fnName(sc)] && len(c.Common().Args) == 1 && p.expr(c.Common().Args[0]) == "$t" && (popFn == nil || popFn == sc) {
+			if sc != nil && p.inRapid(sc) && sc.Blocks != nil && !knownFuncs[p.fnName(sc)] && len(c.Common().Args) == 1 && p.expr(c.Common().Args[0]) == "$t" && (popFn == nil || cloneBase(p.fnName(popFn)) == cloneBase(p.fnName(sc))) {
 				popFn = sc
 				popCalls = append(popCalls, c)
 				continue
@@ -505,7 +512,7 @@ func ruleC10R4(r *Run) {
 			okGuard := false
 			for _, g := range guardsOf(rc.Instr.Block()) {
 				rl := p.relOf(g)
-				if rl.X == "builtin:len($t.cleanups)" && rl.Op == ">" && rl.Y == "0" {
+				if rl.X == "builtin:len($t.cleanups)" && (rl.Op == ">" || rl.Op == "!=") && rl.Y == "0" {
 					if bo, ok := p.resolve(g.Cond).(*ssa.BinOp); ok {
 						if ln, ok := p.resolve(bo.X).(*ssa.Call); ok {
 							if ld, ok := p.resolve(ln.Common().Args[0]).(*ssa.UnOp); ok {
@@ -745,7 +752,7 @@ func ruleC11R1(r *Run) {
 		}
 		fresh := false
 		why := "the T is " + p.expr(tv) + " (not the result of newT in this function)"
-		if isNew && nt.Parent() == fn {
+		if isNew && p.within(nt.Parent(), fn) {
 			uses := 0
 			for _, u := range usesOf(p, nt) {
 				if c, ok := u.(ssa.CallInstruction); ok && bracketKeys[p.calleeKey(c.Common())] {
@@ -758,7 +765,7 @@ func ruleC11R1(r *Run) {
 			switch {
 			case uses != 1:
 				why = fmt.Sprintf("the same T is the subject of %d bracket invocations", uses)
-			case loopCall != nil && !loopCall.Body[nt.Block()]:
+			case loopCall != nil && !p.inLoop(loopCall, nt):
 				why = "the T is created outside the loop that runs the bracket repeatedly"
 			case !dominates(nt, at):
 				why = "newT does not dominate the invocation"
@@ -1302,3 +1309,8 @@ func ruleStreamPositionRelative(r *Run) {
 		r.OK("stream-position-census", token.NoPos, fmt.Sprintf("%d reads of the stream position, %d uses: all are comparisons between positions of one stream, endGroup arguments or assertion messages", nSrc, nUse))
 	}
 }
+
+var cloneSuffixRe = regexp.MustCompile(`__[0-9]+$`)
+
+// cloneBase strips the suffix of a per-call-site clone (clone.go).
+func cloneBase(name string) string { return cloneSuffixRe.ReplaceAllString(name, "") }
